@@ -1,6 +1,11 @@
 import Proofs.C18Frame
 import Proofs.C18Heap
+import Proofs.C18Snappy
+import Proofs.C18SnappyStream
+import Proofs.C18Lz4Block
+import Proofs.C18Lz4Stream
 import Model.CompressRecv
+import Model.CompressSend
 /-!
 # C18 — compression is transparent and only used as negotiated (property theorems)
 
@@ -37,9 +42,9 @@ theorem frame_flag (f : Framer) (fl op : UInt8) (s : Int) (z : Bytes) :
     round-trips, every header-flag byte, opcode, stream and every body: if the frame is built, a
     reader with the same compressor gets back exactly the body, and the header's length field is the
     length of what is on the wire after the header (the compressed length when compressed). -/
-theorem C18_transparent (f : Framer) (hv : ValidProto f)
-    (hc : ∀ c, f.comp = some c → c.RoundTrips)
+theorem C18_transparent_at (f : Framer) (hv : ValidProto f)
     (fl op : UInt8) (s : Int) (body wire : Bytes)
+    (hc : ∀ c z, f.comp = some c → c.enc body = .ok z → c.dec z = .ok body)
     (hb : f.build fl op s body = .ok wire)
     (hsz : wire.length - f.headSize ≤ maxFrameSize) :
     f.decode wire = .ok (f.headOf fl op s (wire.length - f.headSize), body) := by
@@ -48,7 +53,7 @@ theorem C18_transparent (f : Framer) (hv : ValidProto f)
     rw [frame_payload_length] at hsz ⊢
     unfold Framer.decode
     rw [readHeader_frame f fl op s z hv hsz]
-    have hdec := hc c hcomp body z henc
+    have hdec := hc c z hcomp henc
     have hz : ¬ ((z.length : Int) > (maxFrameSize : Int)) := by omega
     have hz0 : ¬ ((z.length : Int) < 0) := by omega
     simp [Framer.readFrame, Framer.headOf, hfl, hcomp, hdec, hz, hz0]
@@ -60,6 +65,15 @@ theorem C18_transparent (f : Framer) (hv : ValidProto f)
     have : (fl &&& flagCompress == flagCompress) = false := by simpa using hfl
     have hz0 : ¬ ((body.length : Int) < 0) := by omega
     simp [Framer.readFrame, Framer.headOf, this, hz, hz0]
+
+/-- **Transparency** in the form with the trusted-base hypothesis `Codec.RoundTrips` (all bodies). -/
+theorem C18_transparent (f : Framer) (hv : ValidProto f)
+    (hc : ∀ c, f.comp = some c → c.RoundTrips)
+    (fl op : UInt8) (s : Int) (body wire : Bytes)
+    (hb : f.build fl op s body = .ok wire)
+    (hsz : wire.length - f.headSize ≤ maxFrameSize) :
+    f.decode wire = .ok (f.headOf fl op s (wire.length - f.headSize), body) :=
+  C18_transparent_at f hv fl op s body wire (fun c z hcomp henc => hc c hcomp body z henc) hb hsz
 
 /-- non-vacuity: an identity "compressor", version 4, QUERY opcode, 3-byte body -/
 example :
@@ -346,6 +360,518 @@ example :
 theorem C18_cex_lz4_length_unchecked :
     let b : BlockCodec := { encB := fun x _ => .ok x, decB := fun src n => .ok (src.take n) }
     lz4Prefix [0, 0, 0, 5, 0x41] = 5 ∧ (lz4Decode b [0, 0, 0, 5, 0x41]).toOption = some [0x41] := by decide
+
+/-! ### lz4: the block format as a concrete block codec (Model/CompressLz4Block.lean) -/
+
+/-- **The LZ4 block format satisfies both block-codec hypotheses, for every body**: the literal-only
+    block is never longer than `CompressBlockBound` (so it fits every destination lz4.go allocates),
+    and the format's decoder, given a destination of exactly the body's length, gives the body back.
+    `BlockCodec.RoundTrips` / `TotalAtBound` are therefore satisfiable by the real wire format. -/
+theorem C18_lz4_format_codec : lz4Ref.RoundTrips ∧ lz4Ref.TotalAtBound := by
+  constructor
+  · intro x n z hx _ he
+    simp only [lz4Ref] at he
+    split at he
+    · injection he with he; subst he; exact lz4LitBlock_decodes x hx
+    · cases he
+  · intro x n hn
+    have := lz4LitBlock_length x
+    exact ⟨lz4LitBlock x, by simp only [lz4Ref]; rw [if_pos (by omega)]⟩
+
+/-- **Cassandra's lz4 framing end to end, no codec hypothesis**: for every body below 2³² bytes the
+    wrapper of lz4/lz4.go around the LZ4 block format encodes (prefix = big-endian length, then ONE
+    block), an independent reader of that framing gets the body, and the wrapper's own Decode does. -/
+theorem C18_lz4_format_delivered (x : Bytes) (hx : x.length < 4294967296) :
+    ∃ y, lz4Encode lz4Ref x = .ok y ∧ 4 ≤ y.length ∧ lz4Prefix y = x.length ∧
+         (x ≠ [] → lz4BlockDecode (y.drop 4) x.length = .ok x) ∧ lz4Decode lz4Ref y = .ok x :=
+  C18_lz4_delivered lz4Ref C18_lz4_format_codec.1 C18_lz4_format_codec.2 x hx
+
+example : (lz4Encode lz4Ref [7, 8, 9]).toOption = some [0, 0, 0, 3, 0x30, 7, 8, 9] ∧
+    (lz4Decode lz4Ref [0, 0, 0, 3, 0x30, 7, 8, 9]).toOption = some [7, 8, 9] ∧
+    (lz4Decode lz4Ref [0, 0, 0, 0]).toOption = some [] := by decide
+
+/-- **The LZ4 block decoder inverts EVERY encoder of the format.** For every list of sequences that
+    is well-formed (matches of at least 4 bytes from 1..65535 bytes back, never from before the start of
+    the output; literal and match lengths of any size, written as nibble + 255-extension bytes) and any
+    last literals — whatever matcher chose them —: the block decodes, into any destination that is large
+    enough, to the LZ77 meaning of the sequences; so through lz4.go's wrapper a body is delivered as soon
+    as the sequences CompressBlock emits MEAN the body (second part: prefix = body length, one block). -/
+theorem C18_lz4_decodes_any_stream (qs : List Lz4Sq) (last : Bytes) (hwf : lz4WF 0 qs) :
+    (∀ n, (lz4Interp qs last #[]).size ≤ n →
+        lz4BlockDecode (lz4Ser qs last) n = .ok (lz4Interp qs last #[]).toList) ∧
+    ∀ x : Bytes, (lz4Interp qs last #[]).toList = x → x.length < 4294967296 →
+      lz4Decode lz4Ref (be32 x.length ++ lz4Ser qs last) = .ok x := by
+  refine ⟨fun n hn => lz4BlockDecode_stream qs last n hwf hn, fun x hx hlen => ?_⟩
+  have hl : x.length = (lz4Interp qs last #[]).size := by rw [← hx]; simp
+  rw [lz4Decode_be32 lz4Ref x.length hlen]
+  by_cases h0 : x.length = 0
+  · have : x = [] := List.eq_nil_of_length_eq_zero h0
+    simp [this]
+  · rw [if_neg h0]
+    show lz4BlockDecode (lz4Ser qs last) x.length = .ok x
+    rw [lz4BlockDecode_stream qs last x.length hwf (by omega), hx]
+
+/-- non-vacuity: literals "AB", an overlapping match (offset 1, length 6), last literals "C" -/
+example :
+    let qs : List Lz4Sq := [{ lits := [0x41, 0x42], offset := 1, mlen := 6 }]
+    lz4WF 0 qs ∧ lz4Ser qs [0x43] = [0x22, 0x41, 0x42, 0x01, 0x00, 0x10, 0x43] ∧
+    (lz4Interp qs [0x43] #[]).toList = [0x41, 0x42, 0x42, 0x42, 0x42, 0x42, 0x42, 0x42, 0x43] ∧
+    (lz4Decode lz4Ref ([0, 0, 0, 9] ++ lz4Ser qs [0x43])).toOption
+      = some [0x41, 0x42, 0x42, 0x42, 0x42, 0x42, 0x42, 0x42, 0x43] := by
+  refine ⟨by simp [lz4WF, Lz4Sq.wf, Lz4Sq.size], by decide, by decide, by decide⟩
+
+/-- the format's decoder on matches: a literal then an OVERLAPPING match (offset 1: a run), then the
+    last literals; and the errors of the format: offset 0, an offset before the start of the output, a
+    match past the destination, literals past the input, a block that ends after a match, a length
+    extension that never ends -/
+theorem C18_lz4_format_examples :
+    (lz4BlockDecode [0x11, 0x41, 0x01, 0x00, 0x10, 0x42] 7).toOption = some [0x41, 0x41, 0x41, 0x41, 0x41, 0x41, 0x42] ∧
+    (lz4BlockDecode [0x11, 0x41, 0x00, 0x00, 0x10, 0x42] 7).toOption = none ∧
+    (lz4BlockDecode [0x11, 0x41, 0x02, 0x00, 0x10, 0x42] 7).toOption = none ∧
+    (lz4BlockDecode [0x11, 0x41, 0x01, 0x00, 0x10, 0x42] 6).toOption = none ∧
+    (lz4BlockDecode [0x30, 0x41] 3).toOption = none ∧
+    (lz4BlockDecode [0x11, 0x41, 0x01, 0x00] 7).toOption = none ∧
+    (lz4BlockDecode [0xF0, 0xFF, 0xFF] 1000).toOption = none := by decide
+
+/-- FULL STATEMENT ("a corrupt compressed body yields an error") for the detectable corruption "match
+    offset 0": holds for the format's decoder — kernel-checked on the block that pierrec/lz4 v4.1.8's
+    amd64 decoder ACCEPTS (it copies 8 not-yet-written destination bytes: zeros through lz4.go);
+    replay input of the proposed finding KF-C18-3 (op `lz4dec … err`). -/
+theorem C18_cex_lz4_zero_offset :
+    (lz4Decode lz4Ref [0, 0, 0, 0x22, 0xe4, 0x41, 0x42, 0x43, 0x44, 0x45, 0x46, 0x47, 0x48, 0x49, 0x4a, 0x4b, 0x4c, 0x4d, 0x4e,
+      0x00, 0x00, 0xc0, 0x50, 0x51, 0x52, 0x53, 0x54, 0x55, 0x56, 0x57, 0x58, 0x59, 0x5a, 0x5b]).toOption = none ∧
+    (lz4Decode lz4Ref [0, 0, 0, 0x22, 0xe4, 0x41, 0x42, 0x43, 0x44, 0x45, 0x46, 0x47, 0x48, 0x49, 0x4a, 0x4b, 0x4c, 0x4d, 0x4e,
+      0x01, 0x00, 0xc0, 0x50, 0x51, 0x52, 0x53, 0x54, 0x55, 0x56, 0x57, 0x58, 0x59, 0x5a, 0x5b]).toOption
+      = some [0x41, 0x42, 0x43, 0x44, 0x45, 0x46, 0x47, 0x48, 0x49, 0x4a, 0x4b, 0x4c, 0x4d, 0x4e,
+              0x4e, 0x4e, 0x4e, 0x4e, 0x4e, 0x4e, 0x4e, 0x4e,
+              0x50, 0x51, 0x52, 0x53, 0x54, 0x55, 0x56, 0x57, 0x58, 0x59, 0x5a, 0x5b] := by decide
+
+/-- what the 4-byte prefix is NOT: the format's decoder may legitimately produce fewer bytes than the
+    destination holds — lz4.go hands that short result on (see `C18_cex_lz4_length_unchecked`) -/
+example : (lz4Decode lz4Ref [0, 0, 0, 9, 0x10, 0x41]).toOption = some [0x41] := by decide
+
+/-! ### snappy: the block format as a second concrete codec (Model/CompressSnappy.lean) -/
+
+/-- **The declared length is checked.** Whatever bytes arrive: if the snappy decoder accepts them, the
+    body it returns has exactly the length the block's uvarint prefix declares (at most 2³²-1) — a body
+    whose prefix over- or under-declares is an error, never a short or padded result. (The lz4 wrapper
+    does NOT have this: `C18_cex_lz4_length_unchecked`.) -/
+theorem C18_snappy_length_checked (src b : Bytes) (h : snappyDecode src = .ok b) :
+    ∃ rest, uvarint src = some (b.length, rest) ∧ b.length ≤ 0xffffffff := by
+  unfold snappyDecode snappyDecodedLen at h
+  cases hu : uvarint src with
+  | none => simp [hu] at h
+  | some p =>
+    obtain ⟨v, rest⟩ := p
+    simp only [hu] at h
+    by_cases hv : v > 0xffffffff
+    · simp [hv] at h
+    · simp only [hv, if_false] at h
+      cases hl : snapLoop (rest.length + 1) rest v #[] with
+      | error e => simp [hl] at h
+      | ok o =>
+        simp only [hl, Except.ok.injEq] at h
+        have hs := snapLoop_size _ _ _ _ _ hl
+        subst h
+        have hlen : o.toList.length = v := by rw [Array.length_toList]; exact hs
+        rw [hlen]
+        exact ⟨rest, rfl, by omega⟩
+
+/-- a block without a complete length prefix is an error (empty input; a prefix that never ends) -/
+theorem C18_snappy_short : (snappyDecode []).toOption = none ∧ (snappyDecode [0x80]).toOption = none ∧
+    (snappyDecode [0xff, 0xff, 0xff, 0xff, 0xff, 0xff, 0xff, 0xff, 0xff, 0xff, 0x01]).toOption = none ∧
+    (snappyDecode [0x80, 0x80, 0x80, 0x80, 0x10]).toOption = none := by decide
+
+/-- corrupt blocks are errors: declared 5 but one literal byte; declared 1 but two literal bytes; a
+    literal that runs past the input; a copy with offset 0; a copy reaching before the start of the
+    output; a copy running past the declared length; a 2-byte literal length cut short -/
+theorem C18_snappy_corrupt :
+    (snappyDecode [5, 0x00, 0x41]).toOption = none ∧
+    (snappyDecode [1, 0x04, 0x41, 0x42]).toOption = none ∧
+    (snappyDecode [3, 0x08, 0x41]).toOption = none ∧
+    (snappyDecode [5, 0x00, 0x41, 0x01, 0x00]).toOption = none ∧
+    (snappyDecode [5, 0x00, 0x41, 0x01, 0x02]).toOption = none ∧
+    (snappyDecode [3, 0x00, 0x41, 0x01, 0x01]).toOption = none ∧
+    (snappyDecode [9, 0xf4, 0x01]).toOption = none := by decide
+
+/-- **The snappy decoder inverts EVERY encoder of the format.** For every list of elements that is
+    well-formed (literals of 1..65536 bytes; copies of 1..64 bytes from 1..65535 bytes back, never from
+    before the start of the output) — whatever matcher chose them —: the block `uvarint(length) ‖`
+    the elements' bytes (shortest literal header, the 1-byte-offset copy where it applies: exactly what
+    golang/snappy's emitLiteral / emitCopy write) decodes to the LZ77 meaning of the elements. So an
+    encoder is transparent as soon as the elements it emits MEAN its input (second part) — the decoder
+    side of the round-trip hypothesis holds for all encoders at once. -/
+theorem C18_snappy_decodes_any_stream (es : List SnapEl) (hwf : snapWF 0 es)
+    (hlen : (snapInterp es #[]).size ≤ 0xffffffff) :
+    snappyDecode (putUvarint 4 (snapInterp es #[]).size ++ snapSer es) = .ok (snapInterp es #[]).toList ∧
+    ∀ x : Bytes, (snapInterp es #[]).toList = x →
+      snappyDecode (putUvarint 4 x.length ++ snapSer es) = .ok x := by
+  have h := snappyDecode_stream es hwf hlen
+  refine ⟨h, fun x hx => ?_⟩
+  have hl : x.length = (snapInterp es #[]).size := by rw [← hx]; simp
+  rw [hl, h, hx]
+
+/-- non-vacuity: a literal, an overlapping 1-byte-offset copy (a run), a 2-byte-offset copy -/
+example :
+    let es : List SnapEl := [.lit [0x41, 0x42], .copy 1 4, .copy 5 3]
+    snapWF 0 es ∧ snapSer es = [0x04, 0x41, 0x42, 0x01, 0x01, 0x0a, 0x05, 0x00] ∧
+    (snapInterp es #[]).toList = [0x41, 0x42, 0x42, 0x42, 0x42, 0x42, 0x42, 0x42, 0x42] ∧
+    (snappyDecode ([9] ++ snapSer es)).toOption = some [0x41, 0x42, 0x42, 0x42, 0x42, 0x42, 0x42, 0x42, 0x42] := by
+  refine ⟨by simp [snapWF, SnapEl.wf, SnapEl.size], by decide, by decide, by decide⟩
+
+/-- non-vacuity of the decoder: a literal, then an OVERLAPPING copy (offset 1, length 4: a run), then a
+    2-byte-offset copy of the first four bytes -/
+example : (snappyDecode [9, 0x00, 0x41, 0x01, 0x01, 0x0e, 0x05, 0x00]).toOption
+    = some [0x41, 0x41, 0x41, 0x41, 0x41, 0x41, 0x41, 0x41, 0x41] := by
+  decide
+
+/-- **The snappy format round-trips for every body below 2³² bytes**: the literal-only encoder of the
+    format, decoded by the format's decoder, gives the body back — for all bodies, no hypothesis. So
+    the transparency hypothesis `Codec.RoundTrips` is satisfiable by a real wire format, and Encode is
+    total on that domain. -/
+theorem C18_snappy_format_roundtrip (x : Bytes) (hx : x.length ≤ 0xffffffff) :
+    (∃ y, snappyRef.enc x = .ok y) ∧ ∀ y, snappyRef.enc x = .ok y → snappyRef.dec y = .ok x := by
+  have he : snappyRef.enc x = .ok (snappyLit x) := by simp [snappyRef, hx]
+  refine ⟨⟨_, he⟩, fun y hy => ?_⟩
+  rw [he] at hy; injection hy with hy; subst hy
+  exact snappyLit_decodes x hx
+
+example : (snappyRef.enc [1, 2, 3]).toOption = some [3, 8, 1, 2, 3] ∧
+    (snappyRef.dec [3, 8, 1, 2, 3]).toOption = some [1, 2, 3] := by decide
+
+/-- **End to end with a concrete format, no codec hypothesis.** On a connection whose compressor is the
+    snappy format, for every request kind, version 1..5, flag bits, stream and EVERY body that fits a
+    frame (compressed form included): the request is built, carries the compress bit iff the kind is
+    neither STARTUP nor OPTIONS, and the reader gets back exactly the body. -/
+theorem C18_snappy_format_delivered (version extra : UInt8) (hx : extra &&& 1 = 0)
+    (hv : ValidProto (connFramer (some snappyRef) version extra))
+    (r : Req) (s : Int) (body : Bytes)
+    (hsz : 9 + body.length ≤ maxFrameSize) (hz : (snappyLit body).length ≤ maxFrameSize) :
+    ∃ wire, (connFramer (some snappyRef) version extra).buildReq r s body = .ok wire ∧
+      (connFramer (some snappyRef) version extra).decode wire =
+        .ok ((connFramer (some snappyRef) version extra).headOf
+              (r.headerFlags (connFramer (some snappyRef) version extra)) r.opcode s
+              (wire.length - (connFramer (some snappyRef) version extra).headSize), body) := by
+  have hlen : body.length ≤ 0xffffffff := by unfold maxFrameSize at hsz; omega
+  obtain ⟨⟨y, hy⟩, hrt⟩ := C18_snappy_format_roundtrip body hlen
+  have hyl : snappyRef.enc body = .ok (snappyLit body) := by simp [snappyRef, hlen]
+  cases hb : (connFramer (some snappyRef) version extra).buildReq r s body with
+  | error e =>
+    exfalso
+    rcases build_err _ _ _ s body e hb with ⟨_, hbig⟩ | ⟨he, _, _⟩ | ⟨_, _, c, u, hcc, hu⟩
+    · have : (connFramer (some snappyRef) version extra).headSize ≤ 9 := by unfold Framer.headSize; split <;> omega
+      omega
+    · subst he; exact C18_no_finish_panic (some snappyRef) version extra hx r s body hb
+    · have : c = snappyRef := by
+        have h' : (connFramer (some snappyRef) version extra).comp = some snappyRef := rfl
+        rw [h'] at hcc; injection hcc with hcc; exact hcc.symm
+      subst this; rw [hy] at hu; cases hu
+  | ok wire =>
+    refine ⟨wire, rfl, ?_⟩
+    have hb' : (connFramer (some snappyRef) version extra).build
+        (r.headerFlags (connFramer (some snappyRef) version extra)) r.opcode s body = .ok wire := hb
+    have hcs : ∀ c, (connFramer (some snappyRef) version extra).comp = some c → c = snappyRef := by
+      intro c hc
+      have h' : (connFramer (some snappyRef) version extra).comp = some snappyRef := rfl
+      rw [h'] at hc; injection hc with hc; exact hc.symm
+    apply C18_transparent_at _ hv _ _ s body wire (fun c z hc hez => by rw [hcs c hc] at hez ⊢; exact hrt z hez) hb'
+    rcases Framer.build_ok _ _ _ s body wire hb' with ⟨_, c, z, hcc, henc, hw⟩ | ⟨_, hw⟩
+    · subst hw; rw [frame_payload_length]
+      rw [hcs c hcc, hyl] at henc; injection henc with henc; subst henc; exact hz
+    · subst hw; rw [frame_payload_length]; omega
+
+example : ((connFramer (some snappyRef) 4 0).buildReq .query 1 [7, 7, 7]).toOption
+    = some [4, 1, 0, 1, 7, 0, 0, 0, 5, 3, 8, 7, 7, 7] := by decide
+
+/-! ### protocol v5: what is sent
+
+gocql at this revision does NOT implement the v5 framing of Cassandra 4 (after STARTUP: segments of at
+most 128 KiB, each with a CRC24-protected header and a CRC32 trailer, compression per SEGMENT and the
+envelope's compress bit unused). FULL STATEMENT of what it sends instead, for all inputs: one
+v3/v4-style envelope — 9 header bytes with version byte 5, the BETA bit 0x10 and (compressor
+negotiated, kind not STARTUP/OPTIONS) the compress bit 0x01 in the flags byte, a 4-byte length, then
+the WHOLE body as one compressor block — no segment header, no checksum, no 128 KiB split. -/
+
+theorem or_andm (a b m : UInt8) : (a ||| b) &&& m = (a &&& m) ||| (b &&& m) :=
+  UInt8.toBitVec_inj.1 (by simp; ext i; simp [Bool.and_or_distrib_right])
+
+theorem and16_cases (x : UInt8) : x &&& 0x10 = 0 ∨ x &&& 0x10 = 0x10 := by
+  have : ∀ x : BitVec 8, x &&& 0x10 = 0 ∨ x &&& 0x10 = 0x10 := by decide
+  rcases this x.toBitVec with h | h
+  · left; exact UInt8.toBitVec_inj.1 (by simpa using h)
+  · right; exact UInt8.toBitVec_inj.1 (by simpa using h)
+
+/-- **v5 frames are legacy envelopes.** For every compressor, flag bits, request kind, stream and body
+    on a version-5 framer: the bytes are `05 ‖ flags ‖ stream(2) ‖ opcode ‖ be32(|payload|) ‖ payload`
+    with the beta bit set, payload = Encode(body) as ONE block when the compress bit is set and the body
+    itself otherwise; nothing precedes or follows. -/
+theorem C18_v5_legacy_envelope (comp : Option Codec) (extra : UInt8) (r : Req) (s : Int) (body wire : Bytes)
+    (h : (connFramer comp 5 extra).buildReq r s body = .ok wire) :
+    ∃ fl payload,
+      wire = [5, fl, byteOfInt (s / 256), byteOfInt s, r.opcode] ++ be32 payload.length ++ payload ∧
+      fl &&& 0x10 = 0x10 ∧
+      wire.length = 9 + payload.length ∧
+      ((fl &&& flagCompress = flagCompress ∧ ∃ c, comp = some c ∧ c.enc body = .ok payload) ∨
+       (fl &&& flagCompress ≠ flagCompress ∧ payload = body)) := by
+  have hp : (connFramer comp 5 extra).proto = 5 := by
+    show (5:UInt8) &&& 0x7f = 5; decide
+  have hf : (connFramer comp 5 extra).flags &&& 0x10 = 0x10 := by
+    have e : (connFramer comp 5 extra).flags = (if comp.isSome then flagCompress else 0) ||| 0x10 ||| extra := by
+      simp [connFramer, newFramer]
+    rw [e, or_andm, or_andm, show (0x10:UInt8) &&& 0x10 = 0x10 by decide]
+    rcases and16_cases (if comp.isSome then flagCompress else 0) with h1 | h1 <;>
+      rcases and16_cases extra with h2 | h2 <;> rw [h1, h2] <;> decide
+  have hfl16 : (r.headerFlags (connFramer comp 5 extra)) &&& 0x10 = 0x10 := by
+    cases r <;> simp only [Req.headerFlags] <;> try exact hf
+    all_goals
+      rw [UInt8.and_assoc, show (0xFE:UInt8) &&& 0x10 = 0x10 by decide]; exact hf
+  unfold Framer.buildReq at h
+  rcases Framer.build_ok _ _ _ s body wire h with ⟨hc, c, z, hcomp, henc, hw⟩ | ⟨hc, hw⟩
+  · refine ⟨_, z, ?_, hfl16, ?_, .inl ⟨hc, c, hcomp, henc⟩⟩
+    · rw [hw]; simp [Framer.frame, Framer.hdr5, hp]
+    · rw [hw]; simp [Framer.frame, Framer.hdr5, hp, be32_length]; omega
+  · refine ⟨_, body, ?_, hfl16, ?_, .inr ⟨hc, rfl⟩⟩
+    · rw [hw]; simp [Framer.frame, Framer.hdr5, hp]
+    · rw [hw]; simp [Framer.frame, Framer.hdr5, hp, be32_length]; omega
+
+example :
+    let c : Codec := { enc := fun x => .ok (0xAA :: x), dec := fun y => .ok (y.drop 1) }
+    ((connFramer (some c) 5 0).buildReq .query 1 [1, 2, 3]).toOption = some [5, 0x11, 0, 1, 7, 0, 0, 0, 4, 0xAA, 1, 2, 3] ∧
+    ((connFramer (some c) 5 0).buildReq .options 1 []).toOption = some [5, 0x10, 0, 1, 5, 0, 0, 0, 0] := by decide
+
+/-! ### frames at the size limit
+
+`finish` compares the UNCOMPRESSED buffer with the 256 MiB limit, then compresses; the compressed
+length is not compared with anything. FULL STATEMENT the property asks for ("every body up to the
+frame size limit is delivered, or the sender gets an error"): NOT true of the code that exists when
+the compressor expands a body that is within the expansion of the limit — `finish` succeeds, the frame
+on the wire declares more than 256 MiB and the reader refuses it (`C18_cex_expanded_over_limit`,
+proposed finding KF-C18-2). `C18_delivered` therefore carries the hypothesis `hz` (the compressed form
+fits), which is exactly the predicate that keeps these bodies out of the spec-backed diff (op `big`
+spec-backed below the limit, op `bigx` model-vs-code above it). -/
+
+theorem readHeader_frame_wide (f : Framer) (fl op : UInt8) (s : Int) (payload : Bytes)
+    (hv : f.proto = 1 ∨ f.proto = 2 ∨ f.proto = 3 ∨ f.proto = 4 ∨ f.proto = 5)
+    (hn : payload.length < 2147483648) :
+    readHeader (f.frame fl op s payload) = .ok (f.headOf fl op s payload.length, payload) := by
+  have h32 : payload.length < 4294967296 := by omega
+  have hr := readBE32_be32 payload.length h32
+  have ht : toInt32 payload.length = (payload.length : Int) := by unfold toInt32; split <;> omega
+  obtain ⟨proto, flags, comp⟩ := f
+  simp only at hv
+  have e1 : (1:UInt8) &&& 127 = 1 := by decide
+  have e2 : (2:UInt8) &&& 127 = 2 := by decide
+  have e3 : (3:UInt8) &&& 127 = 3 := by decide
+  have e4 : (4:UInt8) &&& 127 = 4 := by decide
+  have e5 : (5:UInt8) &&& 127 = 5 := by decide
+  rcases hv with h | h | h | h | h <;> subst h <;>
+    simp [Framer.frame, Framer.hdr5, Framer.headOf, readHeader, be32, hr, ht, e1, e2, e3, e4, e5]
+
+/-- **A body the compressor expands over the limit is sent and refused by the reader** (for ALL
+    framers, compressors and bodies in that situation): the uncompressed frame fits, `finish` succeeds,
+    the length field exceeds `maxFrameSize`, and a gocql reader answers ErrFrameTooBig. -/
+theorem C18_cex_expanded_over_limit (f : Framer) (hv : ValidProto f) (fl op : UInt8) (s : Int)
+    (body z : Bytes) (c : Codec)
+    (hfl : fl &&& flagCompress = flagCompress) (hcomp : f.comp = some c) (henc : c.enc body = .ok z)
+    (hfit : f.headSize + body.length ≤ maxFrameSize)
+    (hbig : maxFrameSize < z.length) (h31 : z.length < 2147483648) :
+    f.build fl op s body = .ok (f.frame fl op s z) ∧
+    f.decode (f.frame fl op s z) = .error .tooBig := by
+  have hb : f.build fl op s body = .ok (f.frame fl op s z) := by
+    cases hbuild : f.build fl op s body with
+    | error e =>
+      exfalso
+      rcases build_err f fl op s body e hbuild with ⟨_, hb⟩ | ⟨_, _, hn⟩ | ⟨_, _, c', u, hc', hu⟩
+      · omega
+      · rw [hcomp] at hn; cases hn
+      · rw [hcomp] at hc'; injection hc' with hc'; subst hc'; rw [henc] at hu; cases hu
+    | ok wire =>
+      rcases f.build_ok fl op s body wire hbuild with ⟨_, c', z', hc', he', hw⟩ | ⟨hn, _⟩
+      · rw [hcomp] at hc'; injection hc' with hc'; subst hc'
+        rw [henc] at he'; injection he' with he'; subst he'; rw [hw]
+      · exact absurd hfl hn
+  refine ⟨hb, ?_⟩
+  unfold Framer.decode
+  rw [readHeader_frame_wide f fl op s z hv h31]
+  have h1 : ¬ ((z.length : Int) < 0) := by omega
+  have h2 : (z.length : Int) > (maxFrameSize : Int) := by omega
+  simp [Framer.readFrame, Framer.headOf, h1, h2]
+
+/-- the hypotheses are satisfiable: a codec that prepends 16 bytes, any body 9 bytes under the limit -/
+example (body : Bytes) (hb : body.length = maxFrameSize - 9) :
+    let c : Codec := { enc := fun x => .ok (List.replicate 16 0 ++ x), dec := fun y => .ok (y.drop 16) }
+    (newFramer (some c) 4).headSize + body.length ≤ maxFrameSize ∧
+    (∃ z, c.enc body = .ok z ∧ maxFrameSize < z.length ∧ z.length < 2147483648) := by
+  intro c
+  refine ⟨?_, List.replicate 16 0 ++ body, rfl, ?_, ?_⟩
+  · have : (newFramer (some c) 4).headSize = 9 := by decide
+    rw [this, hb]; unfold maxFrameSize; omega
+  · simp [hb]; unfold maxFrameSize; omega
+  · simp [hb]; unfold maxFrameSize; omega
+
+/-- **`finish` through lengths only** (what op `big` answers with): whether a frame is built, and how
+    long it is, depends on the body and on the compressor's output through their LENGTHS only. -/
+theorem C18_finish_by_length (f : Framer) (fl op : UInt8) (s : Int) (body : Bytes) :
+    (match f.build fl op s body with | .ok w => Except.ok w.length | .error e => .error e) =
+    finishLen f.headSize (f.headSize + body.length) (fl &&& flagCompress == flagCompress)
+      (f.comp.map fun c => match c.enc body with | .ok z => .ok z.length | .error e => .error e) := by
+  have hl : (f.writeHeader fl op s).length = f.headSize := by
+    rw [f.writeHeader_eq]; simp [f.hdr5_length]; have := f.headSize_ge; omega
+  have hfl : (f.frame fl op s body).length = f.headSize + body.length := by
+    have := frame_payload_length f fl op s body
+    have h2 : f.headSize ≤ (f.frame fl op s body).length := by
+      have := f.hdr5_length fl op s; have := f.headSize_ge
+      simp [Framer.frame, be32_length]; omega
+    omega
+  cases hb : f.build fl op s body with
+  | error e =>
+    rcases build_err f fl op s body e hb with ⟨he, hbig⟩ | ⟨he, hc, hn⟩ | ⟨he, hc, c, u, hcc, hu⟩
+    · subst he; simp [finishLen, hbig]
+    · subst he
+      have hnb : ¬ (f.headSize + body.length > maxFrameSize) := by
+        intro hgt
+        unfold Framer.build Framer.finish at hb
+        simp [hl, hgt] at hb
+      simp [finishLen, hnb, hc, hn]
+    · subst he
+      have hnb : ¬ (f.headSize + body.length > maxFrameSize) := by
+        intro hgt
+        unfold Framer.build Framer.finish at hb
+        simp [hl, hgt] at hb
+      simp [finishLen, hnb, hc, hcc, hu]
+  | ok wire =>
+    have hnb : ¬ (f.headSize + body.length > maxFrameSize) := by
+      intro hgt
+      unfold Framer.build Framer.finish at hb
+      simp [hl, hgt] at hb
+    rcases f.build_ok fl op s body wire hb with ⟨hc, c, z, hcc, he, hw⟩ | ⟨hc, hw⟩
+    · subst hw
+      have hz : (f.frame fl op s z).length = f.headSize + z.length := by
+        have := frame_payload_length f fl op s z
+        have h2 : f.headSize ≤ (f.frame fl op s z).length := by
+          have := f.hdr5_length fl op s; have := f.headSize_ge
+          simp [Framer.frame, be32_length]; omega
+        omega
+      simp [finishLen, hnb, hc, hcc, he, hz]
+    · subst hw
+      have : (fl &&& flagCompress == flagCompress) = false := by simpa using hc
+      simp [finishLen, hnb, this, hfl]
+
+/-- **`readFrame` through lengths only.** -/
+theorem C18_read_by_length (f : Framer) (h : Head) (r : Bytes) :
+    (match f.readFrame h r with | .ok b => Except.ok b.length | .error e => .error e) =
+    readLen h.length r.length (h.flags &&& flagCompress == flagCompress)
+      (f.comp.map fun c => match c.dec (r.take h.length.toNat) with | .ok b => .ok b.length | .error e => .error e) := by
+  by_cases h1 : h.length < 0
+  · simp [Framer.readFrame, readLen, h1]
+  by_cases h2 : h.length > (maxFrameSize : Int)
+  · by_cases h3 : r.length < h.length.toNat <;> simp [Framer.readFrame, readLen, h1, h2, h3]
+  by_cases h3 : r.length < h.length.toNat
+  · simp [Framer.readFrame, readLen, h1, h2, h3]
+  by_cases hc : h.flags &&& flagCompress = flagCompress
+  · cases hcomp : f.comp with
+    | none => simp [Framer.readFrame, readLen, h1, h2, h3, hc, hcomp]
+    | some c =>
+      cases hd : c.dec (List.take h.length.toNat r) <;>
+        simp [Framer.readFrame, readLen, h1, h2, h3, hc, hcomp, hd]
+  · have : (h.flags &&& flagCompress == flagCompress) = false := by simpa using hc
+    simp [Framer.readFrame, readLen, h1, h2, h3, this]; omega
+
+example : finishLen 9 (9 + 100) true (some (.ok 120)) = .ok 129 ∧
+    readLen 120 120 true (some (.ok 100)) = .ok 100 ∧
+    finishLen 9 (maxFrameSize + 1) true (some (.ok 5)) = .error .tooBig ∧
+    readLen (maxFrameSize + 1) (maxFrameSize + 1) true (some (.ok 5)) = .error .tooBig :=
+  ⟨by rfl, by rfl, by rfl, by rfl⟩
+
+/-! ### compressor errors on the send path (Model/CompressSend.lean)
+
+FULL STATEMENT: for every request kind, whatever the compressor answers: an Encode error reaches the
+caller as that error, NOTHING of the request is written, its stream is free again and the calls in
+flight are untouched; every other request is on the wire whole, in order, and decodes to its body;
+OPTIONS and STARTUP never call the compressor, so they cannot fail that way. -/
+
+/-- **An Encode error leaves no trace.** For every request kind whose builder keeps the compress bit,
+    on a framer with the bit set, a body that fits and a compressor that refuses it: `exec` returns the
+    codec's error, the frames written and the registered calls are exactly what they were. -/
+theorem C18_send_error_clean (f : Framer) (st : SendSt) (r : Req) (s : Int) (body : Bytes) (c : Codec) (u : Unit)
+    (hr : Req.compressible r) (hfl : f.flags &&& flagCompress = flagCompress)
+    (hcomp : f.comp = some c) (henc : c.enc body = .error u)
+    (hsz : f.headSize + body.length ≤ maxFrameSize) :
+    execSend f st r s body = (st, .failed .codec) := by
+  unfold execSend
+  cases hb : f.buildReq r s body with
+  | ok w =>
+    exfalso
+    rcases f.build_ok _ _ s body w hb with ⟨_, c', z, hc', he', _⟩ | ⟨hn, _⟩
+    · rw [hcomp] at hc'; injection hc' with hc'; subst hc'; rw [henc] at he'; cases he'
+    · exact hn ((headerFlags_bit f r).2 ⟨hfl, hr⟩)
+  | error e =>
+    rcases build_err f _ _ s body e hb with ⟨_, hbig⟩ | ⟨_, _, hn⟩ | ⟨he, _, _⟩
+    · omega
+    · rw [hcomp] at hn; cases hn
+    · subst he; rfl
+
+/-- **OPTIONS and STARTUP never fail because of the compressor** (they never call it). -/
+theorem C18_send_plain_never_codec (f : Framer) (r : Req) (hr : r = .startup ∨ r = .options)
+    (s : Int) (body : Bytes) : f.buildReq r s body ≠ .error .codec := by
+  intro h
+  rcases build_err f _ _ s body _ h with ⟨he, _⟩ | ⟨he, _, _⟩ | ⟨_, hbit, _⟩
+  · cases he
+  · cases he
+  · have := (headerFlags_bit f r).1 hbit
+    rcases hr with rfl | rfl <;> simp [Req.compressible] at this
+
+theorem sendStep_wire (f : Framer) (st : SendSt) (op : SendOp) :
+    (sendStep f st op).wire = st.wire ++ (op.frame f).toList := by
+  cases op with
+  | resp s => simp [sendStep, respond, SendOp.frame]
+  | req r s body =>
+    simp only [sendStep, execSend, SendOp.frame]
+    cases hb : f.buildReq r s body <;> simp [Except.toOption]
+
+theorem foldl_wire (f : Framer) (ops : List SendOp) : ∀ st : SendSt,
+    (ops.foldl (sendStep f) st).wire = st.wire ++ ops.flatMap (fun op => (op.frame f).toList) := by
+  induction ops with
+  | nil => intro st; simp
+  | cons op rest ih => intro st; simp [List.foldl, ih, sendStep_wire, List.append_assoc]
+
+/-- **The wire is exactly the frames of the requests that were built**, for EVERY sequence of requests
+    (any kinds, streams, bodies; Encode failing on any of them) and responses: in order, each whole,
+    nothing from a failed request, nothing else. -/
+theorem C18_send_wire_exact (f : Framer) (ops : List SendOp) :
+    (runSend f ops).wire = ops.flatMap (fun op => (op.frame f).toList) := by
+  have := foldl_wire f ops SendSt.init
+  simpa [runSend, SendSt.init] using this
+
+/-- … and each of them decodes, with the same compressor, to the body of ITS request. -/
+theorem C18_send_wire_decodes (f : Framer) (hv : ValidProto f) (hc : ∀ c, f.comp = some c → c.RoundTrips)
+    (ops : List SendOp) (w : Bytes) (hw : w ∈ (runSend f ops).wire)
+    (hsz : w.length - f.headSize ≤ maxFrameSize) :
+    ∃ r s body, SendOp.req r s body ∈ ops ∧ f.buildReq r s body = .ok w ∧
+      f.decode w = .ok (f.headOf (r.headerFlags f) r.opcode s (w.length - f.headSize), body) := by
+  rw [C18_send_wire_exact, List.mem_flatMap] at hw
+  obtain ⟨op, hop, hwf⟩ := hw
+  cases op with
+  | resp s => simp [SendOp.frame] at hwf
+  | req r s body =>
+    simp only [SendOp.frame, Option.mem_toList] at hwf
+    cases hb : f.buildReq r s body with
+    | error e => simp [hb, Except.toOption] at hwf
+    | ok w' =>
+      simp [hb, Except.toOption] at hwf
+      subst hwf
+      exact ⟨r, s, body, hop, hb, C18_transparent f hv hc _ _ s body w' hb hsz⟩
+
+/-- non-vacuity: three requests on a connection whose compressor refuses bodies starting with 0xEE;
+    the second fails: two frames on the wire, the OPTIONS one uncompressed -/
+example :
+    let c : Codec := { enc := fun x => if x.head? = some 0xEE then .error () else .ok (0xAA :: x),
+                       dec := fun y => .ok (y.drop 1) }
+    let f := newFramer (some c) 4
+    (runSend f [.req .query 1 [1, 2], .req .execute 2 [0xEE, 3], .req .options 3 [], .resp 1]).wire
+      = [[4, 1, 0, 1, 7, 0, 0, 0, 3, 0xAA, 1, 2], [4, 0, 0, 3, 5, 0, 0, 0, 0]] ∧
+    (runSend f [.req .query 1 [1, 2], .req .execute 2 [0xEE, 3], .req .options 3 [], .resp 1]).calls = [3] := by
+  decide
 
 /-! ### negotiation -/
 
